@@ -35,4 +35,13 @@ PROPS = {
         ],
         assumptions=["semantic boundaries passed by callers (non-nil boundaries argument) are outside the model"],
     ),
+    "C20": dict(
+        gen=["format"],
+        trusted=[
+            "archive/zip (member list) and encoding/xml (encryption.xml) are oracles: the model sees the member names in archive order, the mimetype content and the (algorithm, URI) entries the harness wrote; a ZIP signature on an unreadable archive is the Err outcome",
+            "strings.ToUpper/ToLower are modelled on ASCII (signatures and URIs in the generators are ASCII); strings.TrimSpace is the C13 model",
+            "modelled: format.Detect (extension table regenerated), DetectFromReader, detectHTMLMagic, detectZIPFormat (mimetype, container, main-part and prefix passes), Extractor.validateFormat admission rule, epubdoc.checkForDRM/hasEncryptedContent/isFontObfuscation/isContentFile (suffix list regenerated). The readers' own Open after admission is not modelled (observed through Text() in the property predicates)",
+        ],
+        assumptions=[],
+    ),
 }
